@@ -67,6 +67,44 @@ class BuildLock:
         self.f.close()
 
 
+def behavioural_parser_table(timeout=300):
+    """translate/parser_behaviour.py in a child process: the table observed by driving the real
+    `Parser.match_token` exhaustively; raises on failure"""
+    p = subprocess.run(["/venv/bin/python", os.path.join(VERIF, "translate", "parser_behaviour.py"), os.path.join(REPO, "python")],
+                       capture_output=True, text=True, timeout=timeout)
+    try:
+        t = json.loads(p.stdout)
+    except Exception:
+        raise RuntimeError("behavioural extraction failed: " + (p.stderr or p.stdout)[-400:])
+    if "error" in t:
+        raise RuntimeError("behavioural extraction: " + t["error"])
+    return t
+
+
+def current_parser_table():
+    """the transition table of /repo's parser.py: read syntactically (translate/parser_table.py); if the file
+    is not in the shape that front end accepts, recovered behaviourally (translate/parser_behaviour.py), with the
+    state comments of the last generated table.  Raises the syntactic ShapeError if both fail."""
+    sys.path.insert(0, VERIF)
+    from translate import parser_table
+    src = open(os.path.join(REPO, "python/gherkin/parser.py"), encoding="utf8").read()
+    try:
+        return parser_table.extract(src)
+    except Exception as e_syn:
+        try:
+            t = behavioural_parser_table()
+        except Exception as e_beh:
+            raise type(e_syn)(f"{e_syn}; and {e_beh}")
+        try:
+            old = open(os.path.join(GEN, "ParserTable.lean"), encoding="utf8").read()
+            comments = {int(a): json.loads(b) for a, b in re.findall(r'id := (\d+), comment := ("(?:[^"\\\\]|\\\\.)*")', old)}
+            for r in t["rows"]:
+                r["comment"] = comments.get(r["id"], "")
+        except Exception:
+            pass
+        return t
+
+
 def regenerate() -> dict:
     """Run every translator on the current /repo tree.  Returns {name: {"changed": bool, "error": str|None}}."""
     sys.path.insert(0, VERIF)
@@ -80,8 +118,9 @@ def regenerate() -> dict:
             status[name] = {"changed": False, "error": f"{type(e).__name__}: {e}"}
 
     def t_table():
-        src = open(os.path.join(REPO, "python/gherkin/parser.py"), encoding="utf8").read()
-        return write_if_changed(os.path.join(GEN, "ParserTable.lean"), parser_table.to_lean(parser_table.extract(src)))
+        table = current_parser_table()
+        via["parser_table"] = table.get("via", "syntactic")
+        return write_if_changed(os.path.join(GEN, "ParserTable.lean"), parser_table.to_lean(table))
 
     def t_dialects():
         a = dialects.load(os.path.join(REPO, "python/gherkin/gherkin-languages.json"))
@@ -100,7 +139,9 @@ def regenerate() -> dict:
     def t_siblings():
         return write_if_changed(os.path.join(GEN, "Siblings.lean"), siblings.to_lean(REPO))
 
+    via = {}
     run("parser_table", t_table)
+    status["parser_table"]["via"] = via.get("parser_table")
     run("dialects", t_dialects)
     run("dialects_master", t_master)
     run("grammar", t_grammar)
@@ -108,7 +149,7 @@ def regenerate() -> dict:
     return status
 
 
-def lake_build(targets, timeout=3000):
+def lake_build(targets, timeout=1500):
     """lake build <targets>; returns (ok, output)."""
     with BuildLock():
         rc, out, err = sh(["lake", "build"] + list(targets), cwd=LEAN, timeout=timeout)
